@@ -152,3 +152,13 @@ def bulk_edit_all_or_nothing(H, case):
         exc3, _ = H.raises(H.getattr, cell, "mod")
         H.check("loose_pattern_reports_ownership_error", isinstance(exc3, PatternOwnershipError))
     H.cover("reached")
+
+
+@contract("bulk_edit_canary", ["C19"], targets=_T[:1], canary=True)
+def bulk_edit_canary(H, _):
+    """False claim: after a successful set_via_fn the cells keep their OLD content."""
+    pat, _proj = _make_pattern(H, 1, 1, False)
+    before = _cells(pat)
+    supplied = [_supplied(H, 0)]
+    _edit(H, pat, "fn", None, None, supplied, {})
+    H.check("canary_old_content_kept", H.eq(_cells(pat), before))
